@@ -21,6 +21,29 @@ CHECKS = {
                      "decoder, invisible to any round-trip test, is caught.",
                 note="the frozen table mc/wiretable.py is trusted as the published table (mov = 42 after the C01 repair)",
                 ref="3/C02"),
+    "C15": dict(cat="exploration", tech="bounded-exhaustive enumeration of message serialise/deserialise round trips",
+                text="Every host-to-controller and controller-to-host message type is serialised and deserialised by the real code "
+                     "for every value of each field's boundary lattice (complete for 8-bit fields) against two backgrounds, every "
+                     "Signal/ErrorCode member, all returned arrays of length 0..4 (thorough 0..6) over {None,0,1,-1,INT_MAX,INT_MIN} "
+                     "and every single-None / single-defined pattern of lengths 5..64; fields are compared with an independently "
+                     "written field list, None must stay None.",
+                note="32-bit fields on the boundary lattice; values inside declared widths",
+                ref="3/C15"),
+    "C16": dict(cat="exploration", tech="bounded-exhaustive enumeration of out-of-range operands over three entry routes",
+                text="For every instruction class of every flavour, every operand field is given every value of a just-outside / "
+                     "far-outside list against two backgrounds, through direct construction, through the text assembler and "
+                     "through SDK calls (rotation numerators/denominators, measurement basis rotations, array initial values, "
+                     "literals, app id); the oracle is 'encoding raises, or the bytes decode to exactly the requested program', "
+                     "so a future widening of a field is not an alarm but a silent truncation is.",
+                note="register banks are an Enum and cannot be out of range; SDK route runs on DebugConnection",
+                ref="3/C16"),
+    "C17": dict(cat="exploration", tech="bounded-exhaustive enumeration of print/parse round trips on the real printer and text parser",
+                text="Every instruction class of every flavour is printed with str() and parsed back with that flavour for every "
+                     "value of every operand field against two backgrounds and all field pairs over reduced domains (negative "
+                     "integers, array entries and slices with every register as index included); all sequences up to length 2 "
+                     "(thorough 3) over one representative per operand shape go text -> binary -> text -> parse and must be stable.",
+                note="operands in range; 32-bit integers on the boundary lattice",
+                ref="3/C17"),
 }
 
 PENDING = {
